@@ -7,6 +7,7 @@ import common as C
 import srcfacts
 
 
+AXIOMS_USED = {}
 LEANCHECKER = {"ran": False, "ok": None}
 ALLOWED_AXIOMS = {"propext", "Classical.choice", "Quot.sound"}
 FORBIDDEN = re.compile(r"\b(sorry|admit|native_decide|bv_decide|implemented_by)\b|^axiom |unsafe |maxHeartbeats 0", re.M)
@@ -56,6 +57,7 @@ def audit(prop, theorems):
             problems.append(f"theorem {t}: not found / does not check ({out.strip()[:300]})")
             continue
         axs = {a.strip() for a in per[t].replace("]", "").split(",") if a.strip()}
+        AXIOMS_USED[t] = sorted(axs)
         bad = axs - ALLOWED_AXIOMS
         if bad:
             problems.append(f"theorem {t}: depends on axioms {sorted(bad)}")
@@ -213,6 +215,8 @@ def main():
         # the Lean structured semantics (Spec/Sem.lean) run by the model driver on every program `unflatten` recognises
         "structured_semantics": dict(C.SPEC_STATS),
         "leanchecker": dict(LEANCHECKER),
+        # `#print axioms` of every listed theorem on this run (empty list: no axioms at all)
+        "axioms_per_theorem": dict(AXIOMS_USED),
     }
     C.write_evidence(prop, tier, seed, cov, time.time() - t0, n_viol, getattr(mod, "ASSUMPTIONS", []))
     print(f"{prop} {tier}: {len(cases)} cases, {cov['evaluations']} requests, theorems {len(discharged)}/{len(theorems)}, "
